@@ -11,4 +11,4 @@ import json,sys
 m=json.load(open('seeded/$id/meta.json'))
 print(' '.join(k for k,v in m['checks_run'].items() if v.startswith('caught with a failing input')))")
   for c in $checks; do echo "$id $c"; done
-done | xargs -P 6 -L 1 sh -c 'out=$(NOLEAN=1 ./tools_try_mutant.sh seeded/$0/patch.diff $1 | cut -c1-150); case "$out" in *no-failing-input-found*) v=NOINPUT;; *VIOLATION*) v=CAUGHT;; *) v=MISSED;; esac; echo "$v $0 $out"'
+done | xargs -P ${SWEEP_P:-6} -L 1 sh -c 'out=$(NOLEAN=1 ./tools_try_mutant.sh seeded/$0/patch.diff $1 | cut -c1-150); case "$out" in *no-failing-input-found*) v=NOINPUT;; *VIOLATION*) v=CAUGHT;; *) v=MISSED;; esac; echo "$v $0 $out"'
